@@ -63,7 +63,9 @@ class BaseServer:
             if timestamp < 0:
                 raise InvalidRequestError('Invalid "oauth_timestamp" value')
 
-            if self.EXPIRY_TIME and time.time() - timestamp > self.EXPIRY_TIME:
+            # a timestamp outside the window in either direction is refused: a far
+            # future one would outlive the nonce record and could be replayed
+            if self.EXPIRY_TIME and abs(time.time() - timestamp) > self.EXPIRY_TIME:
                 raise InvalidRequestError('Invalid "oauth_timestamp" value')
         except (ValueError, TypeError) as exc:
             raise InvalidRequestError('Invalid "oauth_timestamp" value') from exc
